@@ -682,12 +682,36 @@ structure RootDesc where
   hash : String
   deriving DecidableEq, Repr
 
+/-- The `api.AddParams` that `AddParamsFromQuery` builds, field by field (the pin options apart): what the
+    handler hands to `adderutils.AddMultipartHTTPHandler` and so to the adder.  A word that is not a known
+    chunker / hash function name is the text "i". -/
+structure AddSeen where
+  layout : String
+  chunker : String
+  hash : String
+  format : String
+  loc : Bool
+  recursive : Bool
+  hidden : Bool
+  wrap : Bool
+  shard : Bool
+  progress : Bool
+  cidv : Int
+  rawLeaves : Bool
+  stream : Bool
+  nocopy : Bool
+  deriving DecidableEq, Repr
+
 structure AddResp where
   status : Nat                 -- 0 = no response (the handler panicked)
   body : BodyShape
   trailer : Bool               -- X-Stream-Error set
   root : Option RootDesc
   ops : List Op
+  /-- codec of the leaf blocks put: "raw" | "pb" | "-" (no block put) -/
+  leaf : String := "-"
+  /-- the `AddParams` built from the query (`none`: the query is refused) -/
+  seen : Option AddSeen := none
   deriving DecidableEq, Repr
 
 /-- `parseBoolParam`: `none` = error -/
@@ -721,7 +745,26 @@ structure AddParams where
   nocopy : Bool
   cidv : Int
   rawLeaves : Bool
+  chunker : String := "size-262144"
+  hash : String := "sha2-256"
+  loc : Bool := false
+  recursive : Bool := false
+  hidden : Bool := false
+  progress : Bool := false
   deriving Repr
+
+def AddParams.seen (p : AddParams) : AddSeen :=
+  { layout := p.layout, chunker := p.chunker, hash := p.hash, format := p.format, loc := p.loc, recursive := p.recursive,
+    hidden := p.hidden, wrap := p.wrap, shard := p.shard, progress := p.progress, cidv := p.cidv, rawLeaves := p.rawLeaves,
+    stream := p.stream, nocopy := p.nocopy }
+
+/-- `query.Get(k)` of a word that is stored unchecked (chunker, hash): absent = the default of
+    `DefaultAddParams`, an unknown name is kept as it is (the text "i") -/
+def keptWord (v : QV) (dflt : String) : String :=
+  match v with
+  | .empty => dflt
+  | .valid (.str s) => s
+  | _ => "i"
 
 /-- is the requested hash function something other than sha2-256?  (an unknown name is) -/
 def otherHash (q : List (String × QV)) : Bool :=
@@ -735,20 +778,36 @@ def otherHash (q : List (String × QV)) : Bool :=
 def effCidv (q : List (String × QV)) (cidv : Int) : Option Int :=
   if otherHash q && cidv == 0 then (if getq q "cid-version" != .empty then none else some 1) else some cidv
 
-/-- `AddParamsFromQuery`; `none` = 400 -/
+/-- `AddParamsFromQuery`; `none` = 400.  The order is the code's: the CID version is read and (for another hash
+    function, when it was not given) raised to 1 FIRST; `RawLeaves` is then defaulted from the effective version
+    (`CidVersion > 0`), and only then the request's own `raw-leaves` is read over it - so an explicit value always wins. -/
 def addParams (q : List (String × QV)) (md : List (Nat × Nat)) : Option AddParams :=
   match fromQuery q md, wordParam (getq q "layout"), wordParam (getq q "format"),
         boolParam (getq q "local") false, boolParam (getq q "recursive") false, boolParam (getq q "hidden") false,
         boolParam (getq q "wrap-with-directory") false, boolParam (getq q "shard") false,
         boolParam (getq q "progress") false, (intParam (getq q "cid-version") 0).bind (effCidv q) with
-  | some o, some layout, some format, some _, some _, some _, some wrap, some shard, some _, some cidv =>
+  | some o, some layout, some format, some loc, some recursive, some hidden, some wrap, some shard, some progress, some cidv =>
     (match boolParam (getq q "raw-leaves") (decide (cidv > 0)), boolParam (getq q "stream-channels") true,
            boolParam (getq q "nocopy") false with
      | some raw, some stream, some nocopy =>
        some { opts := { o with update := none }, layout := layout, format := format, stream := stream, wrap := wrap,
-              shard := shard, nocopy := nocopy, cidv := cidv, rawLeaves := raw }
+              shard := shard, nocopy := nocopy, cidv := cidv, rawLeaves := raw,
+              chunker := keptWord (getq q "chunker") "size-262144", hash := keptWord (getq q "hash") "sha2-256",
+              loc := loc, recursive := recursive, hidden := hidden, progress := progress }
      | _, _, _ => none)
   | _, _, _, _, _, _, _, _, _, _ => none
+
+/-- what the handler hands to the adder for this query: nothing when `url.ParseQuery` or `AddParamsFromQuery` refuses it -/
+def seenOf (q : List (String × QV)) (md : List (Nat × Nat)) : Option AddSeen :=
+  if hasGarbled q then none else (addParams q md).map (·.seen)
+
+/-- The order a tidy-up of `AddParamsFromQuery` would produce ("the CID-builder options together, at the end"):
+    `raw-leaves` is read BEFORE the hash function moves the version to 1, and that move sets `RawLeaves` itself.
+    Kept as the refuted alternative (`Props`: `late_upgrade_overrides_explicit`). -/
+def addParamsLate (q : List (String × QV)) (md : List (Nat × Nat)) : Option AddParams :=
+  match addParams q md, intParam (getq q "cid-version") 0 with
+  | some p, some v0 => some (if otherHash q && v0 == 0 then { p with rawLeaves := true } else p)
+  | _, _ => none
 
 /-- the adder fails before asking anything of the cluster -/
 def lateFailure (r : AddReq) (p : AddParams) : Bool :=
@@ -767,7 +826,7 @@ def errorAnswer (p : AddParams) (ops : List Op) : AddResp :=
   if p.stream then { status := 200, body := .docs 0, trailer := true, root := none, ops := ops }
   else { status := 500, body := .docs 1, trailer := false, root := none, ops := ops }
 
-def addHandle (r : AddReq) : AddResp :=
+def addHandle0 (r : AddReq) : AddResp :=
   if r.creds && r.auth != .right then { status := 401, body := .docs 1, trailer := false, root := none, ops := [] }
   else if r.mp == .none then { status := 400, body := .docs 1, trailer := false, root := none, ops := [] }
   else if hasGarbled r.query then { status := 400, body := .docs 1, trailer := false, root := none, ops := [] }
@@ -779,13 +838,19 @@ def addHandle (r : AddReq) : AddResp :=
         let alloc : Op := ⟨"Cluster.BlockAllocate", .path "" (addOpts p)⟩
         if r.rpc != .ok then errorAnswer p [alloc]
         else
-          let raw := !p.wrap && p.rawLeaves && singleChunk r
+          -- the trickle builder always puts a dag-pb root above the leaves, the balanced one returns a lone leaf itself
+          let raw := !p.wrap && p.rawLeaves && singleChunk r && p.layout != "trickle"
           -- a raw leaf is a CIDv1 whatever cid-version says
           let root : RootDesc :=
             { version := if raw then 1 else p.cidv.toNat, hash := hashOf r, codec := if raw then "raw" else "pb" }
           -- `adder.Pin` drops the allocations for a replicate-everywhere pin
           let pin : Pin := { pinWithOpts 999 (addOpts p) with allocs := if p.opts.rmin < 0 then [] else [999] }
           { status := 200, body := .docs 1, trailer := false, root := some root,
-            ops := [alloc, ⟨"IPFSConnector.BlockPut", .blk⟩, ⟨"Cluster.Pin", pinArg pin⟩] }
+            ops := [alloc, ⟨"IPFSConnector.BlockPut", .blk⟩, ⟨"Cluster.Pin", pinArg pin⟩],
+            leaf := if p.rawLeaves then "raw" else "pb" }
+
+/-- the answer, together with the `AddParams` the query is turned into (observed by calling the real
+    `AddParamsFromQuery` on the same query: it does not depend on credentials or body) -/
+def addHandle (r : AddReq) : AddResp := { addHandle0 r with seen := seenOf r.query r.md }
 
 end CV.C11
